@@ -86,6 +86,7 @@ EDITS = [
  ("copyset.rs", "operator: &a - &b keeps the common members", r"(fn sub\(self, rhs: &\$ty\) -> \$ty \{[\s\S]*?)if !rhs\.contains\(v\) \{", r"\g<1>if rhs.contains(v) {"),
  ("copyset.rs", "operator: &a | &b sized from the smaller operand", r"if self\.len\(\) > rhs\.len\(\) \{", "if self.len() < rhs.len() {"),
  ("copyset.rs", "operator: a - &b inserts instead of removing", r"(fn sub\(mut self, rhs: &\$ty\) -> \$ty \{\s*for v in rhs\.iter\(\) \{\s*)self\.remove\(v\);", r"\g<1>self.insert(v);"),
+ ("setu64.rs", "remove inline: the removed member is kept", r"\*self = t\.filter\(\|&x\| x != e\)\.collect\(\);", "*self = t.filter(|&x| x == e).collect();"),
  ("setu64.rs", "BITSPLITS row", r"&\[25, 12, 12, 12\]", "&[26, 12, 12, 12]"),
  ("setu32.rs", "log_2 width", r"(fn log_2\(x: u32\)[\s\S]*?)num_bits::<u32>\(\) as u32 - x\.leading_zeros\(\)", r"\g<1>num_bits::<u32>() as u32 + 1 - x.leading_zeros()"),
  ("setu32.rs", "compute_array_bits large threshold", r"else if log_2\(mx\) > 62 \{", "else if log_2(mx) > 31 {"),
